@@ -272,4 +272,23 @@ CHECKS = {
         "design_ref": "DESIGN.md section 4, C17",
         "min_obs": {"pdep_pext_pairs": 5000000, "codec_cases": 20000, "runs_with_bmi2": 1, "runs_portable_path": 1},
     },
+    "C16": {
+        "scenarios": [("C16-config", "vsim"), ("C01-tcp", "vsim", 0.5), ("C02-udp", "vsim", 0.75), ("C14-sweep", "vsim", 0.5)],
+        "rides_on": ["C16"],
+        "rule": "(a) wire: on the pattern-parameterised C01/C02/C14 runs every decoded segment is compared with the sender's effective "
+                "pattern: prefix <= middle maximum, suffix <= end maximum (0 = none), nonce class / fixed prefix on the first minLen "
+                "bytes, prefix not on every UDP packet when applyToAllUDPPacket=false, low-entropy mode and rotation equal the "
+                "configuration, client low-entropy iff configured, server low-entropy only after the client used it; (b) configuration: "
+                "120 generated TrafficPattern messages per case (every subset of explicit fields x boundary values x seeds x unlockAll): "
+                "explicit fields unchanged in Effective(), determinism for a given seed, Validate(Effective())==nil, "
+                "Decode(Encode(p))==p, and 60 nonces generated by a cipher carrying the effective nonce pattern (class on the first "
+                "minLen bytes, no systematic rewriting beyond maxLen, fixed prefix only on the first packet unless applyToAll)",
+        "technique": "runtime monitor: wire fields decoded by the reference codec compared with the configuration; algebraic laws of "
+                     "NewConfig/Effective/Validate/Encode/Decode over generated messages",
+        "text": "Absence checks that random bytes could satisfy by chance are statistical (stated thresholds) or restricted to >=8-byte "
+                "fixed prefixes.",
+        "note": "trusted: refcodec field decoding; thresholds: 3 printable bytes after maxLen in more than half of >=30 nonces",
+        "design_ref": "DESIGN.md section 4, C16",
+        "min_obs": {"patterns": 3000, "nonces_generated": 100000, "nonces_checked": 100, "padded_segments": 1000},
+    },
 }
